@@ -160,6 +160,9 @@ class EWMean(Aggregation):
 
     def on_new(self, acc, new):
         result, old_wt, is_first = acc
+        if not len(result) and len(new):
+            # nothing seen so far (empty batches only): start from this batch
+            result, is_first = new.iloc[:1], True
         for i in range(int(is_first), len(new)):
             old_wt *= self.old_wt_factor
             result = ((old_wt * result) + (self.new_wt * new.iloc[i])) / (old_wt + self.new_wt)
